@@ -182,13 +182,18 @@ def install_common(reg):
     sf["cb_callee"] = cb_part(0)
     sf["cb_arg"] = cb_part(1)
 
+    def meth_seq(it, kind):
+        """the Receiver./Sender. methods used by contract in this body, in order (utility functions left out)"""
+        return VList([VStr(e[1][0].split(".")[-1]) for e in it.ctx.trace
+                      if e[0] == kind and (":Receiver." in e[1][0] or ":Sender." in e[1][0])])
+
     def call_seq(it):
-        return VList([VStr(e[1][0].split(".")[-1].split(":")[-1]) for e in it.ctx.trace if e[0] == "call"])
+        return meth_seq(it, "call")
 
     sf["call_seq"] = call_seq
 
     def ret_seq(it):
-        return VList([VStr(e[1][0].split(".")[-1].split(":")[-1]) for e in it.ctx.trace if e[0] == "callret"])
+        return meth_seq(it, "callret")
 
     sf["ret_seq"] = ret_seq
 
@@ -333,14 +338,333 @@ def regf_p_all():
     return regf_p(inline_extra=(f"{TRANSIT}:Connection._writeToConsumer", f"{TRANSIT}:Connection.connectConsumer"))
 
 
+# ------------------------------------------------------------------ deferred-result contracts (R, S)
+def _append(o, field, w):
+    if isinstance(o, VObj) and isinstance(o.fields.get(field), VStr):
+        o.fields[field] = VStr(z3.Concat(o.fields[field].z, w), "bytes")
+
+
+def res_connect(it, d, fr):
+    """TransitSender/TransitReceiver.connect(): a fresh record pipe (nothing written to it yet) or a failure"""
+    if it.ctx.choose([z3.BoolVal(True), z3.BoolVal(True)], "transit.connect") == 1:
+        it.raise_("TransitError", VStr("connect failed"))
+    rp = it.fresh("obj[RecordPipe]", "record_pipe")
+    it.ctx.assume(z3.Length(rp.fields["_written"].z) == 0)
+    return rp
+
+
+def res_writeToFile(it, d, fr):
+    """record_pipe.writeToFile(f, expected, progress, hasher) - the statement proved for
+    Connection.writeToFile/connectConsumer/_writeToConsumer/connectionLost and FileConsumer.write:
+    some bytes w (the records, in order) are written to f and fed to hasher, the same bytes to both;
+    the Deferred fires with n == len(w) and only if n >= expected; connection loss => errback(ConnectionClosed).
+    expected None => no Deferred at all (None comes back); a non-numeric expected can never be reached."""
+    args = list(d.info["args"]) + [NONE] * 4
+    f, expected, progress, hasher = args[:4]
+    expected = it.force(expected)
+    if isinstance(expected, VJson):
+        expected = it.json_narrow(expected)
+    if expected is NONE:
+        return NONE
+    w = z3.String(it.ctx.namer("received_bytes"))
+    _append(it.force(f), "_written", w)
+    hasher = it.force(hasher)
+    if isinstance(hasher, VBoundExt) and isinstance(hasher.recv, VObj) and hasher.recv.cls == "sha256" and hasher.meth == "update":
+        _append(hasher.recv, "_data", w)
+    elif hasher is not NONE:
+        raise OutOfSubset("writeToFile with a hasher that is not hashlib's update")
+    numeric = isinstance(expected, (VInt, VReal, VBool))
+    outcome = it.ctx.choose([z3.BoolVal(numeric), z3.BoolVal(True)], "writeToFile")
+    if outcome == 1:
+        it.raise_("error.ConnectionClosed")
+    n = VInt(z3.Length(w))
+    it.ctx.assume(it.compare(ast.GtE(), n, expected))
+    return n
+
+
+def res_receive_record(it, d, fr):
+    if it.ctx.choose([z3.BoolVal(True), z3.BoolVal(True)], "receive_record") == 1:
+        it.raise_("error.ConnectionClosed")
+    return it.fresh("bytes", "record")
+
+
+def res_beginFileTransfer(it, d, fr):
+    """twisted.protocols.basic.FileSender (assumed): repeatedly chunk = file.read(CHUNK_SIZE); if transform:
+    chunk = transform(chunk); consumer.write(chunk); fires when the file is exhausted.  Handled like a loop
+    with the sidecar invariant reg.yield_loops[function]: proved at entry, and re-proved after one arbitrary
+    step that runs the *real* transform closure."""
+    from pyvc.ctx import PathEnd
+    spec = it.reg.yield_loops.get(fr.fdef.key if fr.fdef else None)
+    if spec is None:
+        raise OutOfSubset("FileSender.beginFileTransfer without a yield-loop invariant")
+    key = fr.fdef.key
+    fd, consumer = it.force(d.info["args"][0]), it.force(d.info["args"][1])
+    transform = d.info["kwargs"].get("transform", NONE)
+    for i, inv in enumerate(spec["invariant"]):
+        it.ctx.prove(it.truth(it.eval_spec(inv, fr)), f"{key}#FileSender.inv{i}.entry", {"kind": "loop-entry", "src": inv})
+    for ex, field in spec["state"]:
+        o = it.force(it.eval_spec(ex, fr))
+        o.fields[field] = it.fresh_like(o.fields[field], field)
+    for inv in spec["invariant"]:
+        it.ctx.assume(it.truth(it.eval_spec(inv, fr)))
+    k = it.ctx.choose([z3.BoolVal(True)] * 3, "FileSender")
+    if k == 0:
+        chunk = it.fresh("bytes", "chunk")
+        it.ctx.assume(z3.Length(chunk.z) > 0)
+        _append(fd, "_read", chunk.z)
+        out = it.call(transform, [chunk], {}, fr) if transform is not NONE else chunk
+        it.call_method(consumer, "write", [out], {}, fr)
+        for i, inv in enumerate(spec["invariant"]):
+            it.ctx.prove(it.truth(it.eval_spec(inv, fr)), f"{key}#FileSender.inv{i}.preserved", {"kind": "loop-preserve", "src": inv})
+        raise PathEnd("loop cut")
+    if k == 1:
+        it.raise_("error.ConnectionClosed")
+    it.ctx.assume(fd.fields["_read"].z == fd.fields["_content"].z)      # fired: the file is exhausted
+    return it.fresh("bytes", "last_chunk")
+
+
+DEFERRED_RESULTS = {"Transit.connect": res_connect, "RecordPipe.writeToFile": res_writeToFile,
+                    "RecordPipe.receive_record": res_receive_record, "FileSender.beginFileTransfer": res_beginFileTransfer}
+STABLE = {"Receiver": {"args", "_fs", "abs_destname", "xfersize", "_transit_receiver", "_reactor", "_tor"},
+          "Sender": {"_args", "_timing", "_transit_sender", "_fd_to_send", "_reactor", "_tor"}}
+
+
+def pipe_write(it, recv, meth, args, kwargs, fr):
+    data = it.force(args[0])
+    it.ctx.event("bcall", "RecordPipe", "write", [data], {})
+    _append(recv, "_written", data.z)
+    return NONE
+
+
+def install_rs(reg):
+    install_common(reg)
+    deferred.install(reg, DEFERRED_RESULTS, STABLE)
+    reg.boundary["Transit.connect"] = deferred.producing("Transit.connect")
+    reg.boundary["RecordPipe.writeToFile"] = deferred.producing("RecordPipe.writeToFile")
+    reg.boundary["RecordPipe.receive_record"] = deferred.producing("RecordPipe.receive_record")
+    reg.boundary["FileSender.beginFileTransfer"] = deferred.producing("FileSender.beginFileTransfer")
+    reg.boundary["RecordPipe.write"] = pipe_write
+    reg.boundary_returns["RecordPipe.describe"] = "str"
+    reg.boundary_returns["File.tell"] = "int"
+    reg.ext_models["twisted.protocols.basic.FileSender"] = lambda it, args, kw: VObj("FileSender", {})
+    reg.class_fields["RecordPipe"] = {"_written": "bytes"}
+    reg.yield_loops = {f"{SEND}:Sender._send_file": {
+        "state": [("hasher", "_data"), ("record_pipe", "_written"), ("self._fd_to_send", "_read")],
+        "invariant": ["hasher._data == record_pipe._written", "record_pipe._written == self._fd_to_send._read"]}}
+    for c in UTIL_ASSUMED:
+        reg.contracts[c.target] = c
+
+
+UTIL_ASSUMED = [
+    Contract("wormhole/util.py:bytes_to_hexstr", params={"b": "bytes"}, returns="str", ensures=[("definition", "result == hexstr(b)")]),
+    Contract("wormhole/util.py:dict_to_bytes", params={"d": "json"}, returns="bytes", ensures=[("definition", "result == json_bytes(d)")]),
+    Contract("wormhole/util.py:bytes_to_dict", params={"b": "bytes"}, returns="json",
+             raises={"ValueError": None, "UnicodeDecodeError": None, "AssertionError": None},
+             ensures=[("a-dict", "isinstance(result, dict)")]),
+]
+
+# ------------------------------------------------------------------ (R) cmd_receive.Receiver
+R_SELF = {"args": "obj[Args]", "_fs": "obj[GhostFS]", "_transit_receiver": "obj[Transit]", "abs_destname": "str", "xfersize": "json"}
+NET_EXC = ["error.ConnectionClosed", "TransitError"]
+TD_EXC = ["TransferError", "AssertionError", "TypeError"] + NET_EXC
+PO_EXC = sorted(set(c05.HD_EXC + TD_EXC + ["BadZipFile", "RespondError"]))
+
+
+def transfer_before_final(it):
+    """over the ghost call trace (contracts applied in this body): every call of _write_file/_write_directory
+    comes after a *return* of _transfer_data that was given the same file object, and that object is what
+    _handle_file/_handle_directory returned"""
+    tr = [e for e in it.ctx.trace if e[0] in ("call", "callret")]
+    short = lambda t: t.split(".")[-1]          # noqa: E731
+    produced, transferred, pending = [], [], None
+    ok = True
+    for kind, a, _ in tr:
+        name = short(a[0])
+        if kind == "call":
+            pending = (name, a[1])
+            if name in ("_write_file", "_write_directory"):
+                f = a[1][-1]
+                ok = ok and any(f is x for x in transferred) and any(f is x for x in produced)
+        else:
+            if name in ("_handle_file", "_handle_directory"):
+                produced.append(a[1])
+            if name == "_transfer_data" and pending and pending[0] == "_transfer_data":
+                transferred.append(pending[1][-1])
+    return VBool(ok)
+
+
+R_CONTRACTS = [
+    Contract(f"{RECV}:Receiver._establish_transit", props=[PROP], params={}, self_fields=R_SELF, returns="obj[RecordPipe]",
+             raises={"TransitError": None}, ensures=[("fresh-pipe", "result._written == b''")]),
+    Contract(f"{RECV}:Receiver._transfer_data", props=[PROP], params={"record_pipe": "obj[RecordPipe]", "f": "obj[File]"},
+             self_fields=R_SELF, requires=["f._written == b''"], returns="bytes", raises={e: None for e in TD_EXC},
+             ensures=[("R1-every-announced-byte-was-written", "len(f._written) == self.xfersize"),
+                      ("R1-the-hash-is-over-exactly-the-bytes-written-to-f", "result == sha256_digest(f._written)")],
+             internal_ensures=[("one-writeToFile-into-f-expecting-xfersize",
+                                "bcalls('writeToFile') == 1 and bcall_arg('writeToFile', 0, 0) is f and "
+                                "bcall_arg('writeToFile', 0, 1) == self.xfersize")],
+             note="returns normally => received == xfersize and the returned sha256 covers exactly what went into f"),
+    Contract(f"{RECV}:Receiver._close_transit", props=[PROP], params={"record_pipe": "obj[RecordPipe]", "datahash": "bytes"},
+             self_fields=R_SELF,
+             internal_ensures=[("R3-acks-ok-with-the-hex-of-that-hash-then-closes",
+                                "bcall_names() == ['send_record', 'close'] and "
+                                "bcall_arg('send_record', 0, 0) == json_bytes({'ack': 'ok', 'sha256': hexstr(datahash)})")]),
+    Contract(f"{RECV}:Receiver._handle_text", props=[PROP], params={"them_d": "json", "w": "obj[Wormhole]"}, self_fields=R_SELF,
+             raises={"KeyError": None, "TypeError": None, "IndexError": None},
+             internal_ensures=[("acks-the-message", "bcall_names() == ['send_message'] and bcall_arg('send_message', 0, 0) == "
+                                                    "json_bytes({'answer': {'message_ack': 'ok'}})")]),
+    Contract(f"{RECV}:Receiver._parse_offer", props=[PROP], params={"them_d": "json", "w": "obj[Wormhole]"}, self_fields=R_SELF,
+             requires=c05.CWD_OK, pre_hook=c05.bind_fs, raises={e: None for e in PO_EXC},
+             modifies=["abs_destname", "xfersize"] + c05.FS_FIELDS,
+             internal_ensures=[
+                 ("R2-rename-or-unzip-only-after-the-transfer-of-that-very-file-succeeded", "transfer_before_final()"),
+                 ("R2-one-of-the-three-complete-sequences",
+                  "call_seq() == ['_handle_text'] or "
+                  "call_seq() == ['_handle_file', '_establish_transit', '_transfer_data', '_write_file', '_close_transit'] or "
+                  "call_seq() == ['_handle_directory', '_establish_transit', '_transfer_data', '_write_directory', '_close_transit']"),
+                 ("R2-everything-called-returned", "call_seq() == ret_seq()"),
+                 ("R2-the-only-file-opened-is-destination-dot-tmp",
+                  "n_fs('open') == 0 and implies(call_seq()[0] == '_handle_file', "
+                  "call_result('_handle_file').name == self.abs_destname + '.tmp')"),
+                 ("R3-the-ack-carries-the-hash-that-transfer-data-returned",
+                  "implies(call_seq()[0] != '_handle_text', call_arg('_close_transit', 'datahash') == call_result('_transfer_data'))")],
+             ensures_raise={e: [("R2-no-final-file-unless-the-transfer-succeeded", "transfer_before_final()"),
+                                ("no-ack-unless-written", "implies('_close_transit' in call_seq(), '_write_file' in ret_seq() or "
+                                                          "'_write_directory' in ret_seq())")] for e in PO_EXC},
+             note="_handle_file/_handle_directory/_write_file/_write_directory by their C05 contracts, _transfer_data/"
+                  "_close_transit/_establish_transit by the contracts above"),
+]
+
+# ------------------------------------------------------------------ (S) cmd_send.Sender
+S_SELF = {"_transit_sender": "obj[Transit]", "_fd_to_send": "obj[File]", "_args": "obj[SArgs]", "_timing": "obj[Timing]"}
+SF_EXC = ["TransferError", "ValueError", "UnicodeDecodeError", "AssertionError"] + NET_EXC
+
+S_CONTRACTS = [
+    Contract(f"{SEND}:Sender._send_file", props=[PROP], params={}, self_fields=S_SELF,
+             requires=["self._fd_to_send._read == b''"], raises={e: None for e in SF_EXC},
+             internal_ensures=[
+                 ("S1-success-only-on-an-explicit-ok", "jhas(ack, 'ack') and jget(ack, 'ack') == 'ok'"),
+                 ("S1-a-hash-in-the-ack-must-be-the-hash-of-what-was-handed-to-the-pipe",
+                  "imp(jhas(ack, 'sha256'), jget(ack, 'sha256') == hexstr(sha256_digest(record_pipe._written)))"),
+                 ("S2-hash-covers-exactly-what-was-written", "hasher._data == record_pipe._written"),
+                 ("what-was-written-is-what-was-read-from-the-file", "record_pipe._written == self._fd_to_send._read"),
+                 ("the-whole-file-or-nothing-for-an-empty-one",
+                  "record_pipe._written == self._fd_to_send._content or (filesize == 0 and record_pipe._written == b'')"),
+                 ("the-ack-is-awaited-exactly-once", "bcalls('receive_record') == 1")],
+             ensures_raise={"error.ConnectionClosed": [("not-success", "True")]},
+             note="a lost ack (receive_record errback) or connection loss leaves through ConnectionClosed; a bad ack through TransferError"),
+    Contract(f"{SEND}:Sender._handle_answer", props=[PROP], params={"them_answer": "json"},
+             self_fields=dict(S_SELF, _fd_to_send="opt[obj[File]]"),
+             requires=["self._fd_to_send is None or self._fd_to_send._read == b''"],
+             raises={e: None for e in SF_EXC + ["KeyError", "TypeError", "AttributeError", "IndexError"]},
+             internal_ensures=[
+                 ("text-needs-message-ack-ok", "implies(self._fd_to_send is None, jhas(them_answer, 'message_ack') and "
+                                               "jget(them_answer, 'message_ack') == 'ok' and call_seq() == [])"),
+                 ("file-needs-file-ack-ok-and-a-completed-send-file",
+                  "implies(self._fd_to_send is not None, jhas(them_answer, 'file_ack') and jget(them_answer, 'file_ack') == 'ok' "
+                  "and call_seq() == ['_send_file'] and ret_seq() == ['_send_file'])")]),
+]
+
+
+def regf_r():
+    reg = c05.regf(modular=True)
+    install_rs(reg)
+    register_classes(reg, ["wormhole/errors.py", RECV])
+    reg.class_fields["Receiver"] = dict(R_SELF)
+    sf = reg.spec_funcs
+    sf["transfer_before_final"] = transfer_before_final
+
+    def call_arg(it, name, param):
+        name, param = it.concrete(name), it.concrete(param)
+        for e in it.ctx.trace:
+            if e[0] == "call" and e[1][0].endswith("." + name):
+                c = it.reg.contracts[e[1][0]]
+                names = [a.arg for a in c.fdef.node.args.args]
+                return e[1][1][names.index(param)]
+        return NONE
+
+    sf["call_arg"] = call_arg
+    for c in R_CONTRACTS:
+        reg.contracts[c.target] = c
+    return reg
+
+
+def regf_s():
+    reg = make_registry()
+    install_trace_funcs(reg)
+    register_classes(reg, ["wormhole/errors.py", SEND])
+    install_rs(reg)
+    reg.class_fields["File"] = {"name": "str", "_read": "bytes", "_content": "bytes"}
+    reg.class_fields["SArgs"] = {"hide_progress": "bool", "stderr": "obj[Stream]"}
+    for c in S_CONTRACTS:
+        reg.contracts[c.target] = c
+    return reg
+
+
+# ------------------------------------------------------------------ stable fields: a syntactic frame argument
+def stable_fields_task(tier, seed):
+    """Receiver.abs_destname / Receiver.xfersize are declared stable across yields: the only stores to them in
+    cmd_receive.py are in _handle_file/_handle_directory (reached once per Receiver: _go refuses a second offer)"""
+    t0 = time.time()
+    m = source.load_module(RECV)
+    stores = {}
+    for cname, cd in m.classes.items():
+        for mname, fd in cd.methods.items():
+            for n in ast.walk(fd.node):
+                if isinstance(n, ast.Attribute) and isinstance(n.ctx, (ast.Store, ast.Del)) and n.attr in ("abs_destname", "xfersize"):
+                    stores.setdefault(n.attr, set()).add(f"{cname}.{mname}")
+    obs = []
+    for fld in ("abs_destname", "xfersize"):
+        where = stores.get(fld, set())
+        good = where <= {"Receiver._handle_file", "Receiver._handle_directory"}
+        obs.append(ob(f"{RECV}:stable-field.{fld}", "discharged" if good else "failed", "evaluation", 0.0, False, None,
+                      {"kind": "frame", "definite": True, "src": f"stores to .{fld} only in _handle_file/_handle_directory (found {sorted(where)})"},
+                      smt_hash=fld))
+    return {"obligations": obs, "info": {"target": f"{RECV}:<stores to stable fields>", "sha": None, "lines": None, "paths": 1,
+                                         "wall": round(time.time() - t0, 3)}}
+
+
 def tasks():
     out = []
     for c in P_CONTRACTS:
         inl = c.target.endswith(("connectConsumer", "recordReceived"))
         out.append(ContractTask(c, regf_p_all if c.target.endswith("writeToFile") else regf_p_w2c if inl else regf_p))
+    out += [ContractTask(c, regf_r) for c in R_CONTRACTS]
+    out += [ContractTask(c, regf_s) for c in S_CONTRACTS]
+    out.append(FuncTask("stable-fields", stable_fields_task, True, "frame"))
     return out
 
 
-CONTRACTS = P_CONTRACTS
-TRUSTED = []
-ASSUMPTIONS = []
+CONTRACTS = P_CONTRACTS + R_CONTRACTS + S_CONTRACTS
+TRUSTED = [
+    "z3/cvc5", "pyvc semantics of the Python subset (DESIGN 2.2)",
+    "inlineCallbacks (props/deferred.py): a generator is resumed exactly once per fired Deferred with its result, or the "
+    "failure is raised at the yield; a non-Deferred is sent straight back; while suspended every field of self not declared "
+    "stable is havocked.  Declared stable: Receiver.args/abs_destname/xfersize/_transit_receiver (the two data fields are "
+    "checked syntactically to be stored only by _handle_file/_handle_directory), Sender._args/_timing/_transit_sender/_fd_to_send",
+    "deferred-result contract of record_pipe.writeToFile(f, expected, progress, hasher.update): some bytes w are appended to f "
+    "and fed to hasher (the same bytes); fires with n == len(w) only if n >= expected; otherwise errback(ConnectionClosed); "
+    "expected None gives None.  This is the statement proved in layer (P) for Connection.writeToFile/connectConsumer/"
+    "_writeToConsumer/recordReceived/connectionLost and FileConsumer.write; the identification of the two is by inspection",
+    "deferred-result contracts: Transit*.connect() fires with a fresh record pipe (nothing written yet) or fails; "
+    "receive_record() fires with some bytes or errbacks ConnectionClosed",
+    "twisted.protocols.basic.FileSender.beginFileTransfer(file, consumer, transform): repeatedly reads a non-empty chunk, "
+    "passes it through transform, hands the result to consumer.write, in order; fires when the file is exhausted (assumed; the "
+    "transform closure _count_and_hash itself is executed symbolically inside the inductive step)",
+    "hashlib.sha256: update appends to the hashed data, digest is an uninterpreted function of that data (32 bytes); "
+    "equal digests => equal data is NOT assumed by any obligation here (collision resistance only matters for the end-to-end reading)",
+    "wormhole.util.bytes_to_hexstr / dict_to_bytes / bytes_to_dict: assumed contracts (hexlify+ascii never fails; "
+    "json.dumps/loads are uninterpreted; bytes_to_dict returns a dict or raises)",
+    "file objects: f.write(b) appends b to the ghost content f._written; RecordPipe.write(b) appends to pipe._written (ghost)",
+    "assert statements are executed (no python -O): `assert received == self.xfersize` is what rejects surplus bytes",
+    "the C05 contracts of Receiver._handle_file/_handle_directory/_write_file/_write_directory (verified by ./check C05)",
+]
+ASSUMPTIONS = [
+    "records arrive unmodified and in order (C06), sha256 collision resistance, zipfile/zipstream content round trip and "
+    "repr() escaping of text messages are outside this check",
+    "FileConsumer/consumer identity: Connection.connectConsumer is verified for FileConsumer consumers",
+    "Sender._send_file is verified for a plain file object in _fd_to_send (the ZipStream branch `len(zs)`/open_iterable is not modelled)",
+    "a JSON float xfersize equal to the integer byte count is treated by the engine as unequal (the real code succeeds "
+    "there; the claims are unaffected)",
+    "negative `expected`: connectConsumer then fires on the first record; the receiver's assert rejects it",
+]
